@@ -46,7 +46,7 @@ COREUTILS = {"md5": "md5sum", "sha1": "sha1sum", "sha224": "sha224sum", "sha256"
 HEX = "0123456789abcdef"
 BARE_GOOD = {32: "md5", 40: "sha1", 64: "sha256"}
 BARE_BAD = [0, 8, 31, 33, 41, 63, 65, 128]
-CLASS_FLOORS = {"size-0": 3, "size-chunk-boundary": 10, "size-multi-chunk": 10, "algorithms-distinct": 10, "coreutils-cross-checked": 5,
+CLASS_FLOORS = {"history-empty-recorded-first": 10, "size-0": 3, "size-chunk-boundary": 10, "size-multi-chunk": 10, "algorithms-distinct": 10, "coreutils-cross-checked": 5,
                 "path-dot-slash": 5, "path-double-slash": 5, "path-dotdot": 5, "path-trailing-dot": 5, "path-absolute": 5,
                 "section-bad-first": 5, "section-bad-middle": 5, "section-bad-last": 5, "section-all-good": 10, "section-bare-32": 5,
                 "section-bare-40": 5, "section-bare-64": 5, "history-different-value": 10, "history-equal-value": 10,
@@ -296,7 +296,7 @@ def check_history(ctx, pmi, rng):
     ops = []
     for _ in range(rng.randint(3, 12)):
         t = rng.choice(types)
-        v = rng.choice([vals[t][0], vals[t][0], vals[t][1], "", None])
+        v = rng.choice([vals[t][0], vals[t][0], vals[t][1], "", None, ""])
         ops.append([t, v])
     readd = False
     for step, (t, v) in enumerate(ops):
@@ -304,6 +304,8 @@ def check_history(ctx, pmi, rng):
         had = before.get(t)
         if t in before:
             readd = True
+            if not had and v:
+                ctx.count("history-empty-recorded-first")
             if had:
                 ctx.count("history-different-value" if (v and v != had) else "history-equal-value" if v == had else
                           "history-empty-value" if v == "" else "history-none-value")
@@ -317,7 +319,8 @@ def check_history(ctx, pmi, rng):
         after = dict(img.checksums)
         probs = []
         for tt, vv in before.items():
-            if vv and after.get(tt) != vv:
+            if after.get(tt) != vv or tt not in after:
+                # a recorded value - also a recorded empty one - is never replaced (the library raises instead)
                 probs.append("recorded %s value %r became %r (%s)" % (tt, vv, after.get(tt), got))
         if had and v and v != had and got == "returned":
             probs.append("a different value for %s was offered and no error was raised" % t)
